@@ -13,6 +13,13 @@ Lemma depth_block_pos b : (1 <= depth_block b)%nat.
 Proof. destruct b as [|s r]; cbn [depth_block]; [lia|]. destruct s; cbn [depth_stmt]; lia. Qed.
 
 
+(** trim_cmd coincides with trim unless the trimmed text ends in a backslash *)
+Lemma trim_cmd_is_trim s : count_bs (rev (trim s)) = 0%nat -> trim_cmd s = trim s.
+Proof.
+  intro H. unfold trim_cmd. change (trim_end (trim_start s)) with (trim s). rewrite H.
+  destruct (Nat.ltb (length (trim s)) (length (trim_start s))); reflexivity.
+Qed.
+
 (** last status of an extended list *)
 Lemma last_status_cons a l : l <> [] -> last_status (a :: l) = last_status l.
 Proof. destruct l; [congruence|reflexivity]. Qed.
